@@ -26,9 +26,15 @@ ASSUMPTIONS = [
     "table magnitudes enter the Lean table as the exact decimal value of repr(float) (round trip checked)",
     "texts are ASCII; exponent numerators/denominators stay below 2^53 (int(num/gcd) in Fraction.rebase)",
     "an exponent text with denominator 0 and numerator 0 (m0:0) is outside the domain (not judged)",
-    "UNIT_STANDARD/UNIT_PREFIXES are the shipped tables (no UnitEnvironment active during the check)",
+    "UNIT_STANDARD/UNIT_PREFIXES are the shipped tables: no UnitEnvironment is active while a text is judged; a "
+    "short stream opens and closes environments (valid / refused) and then requires the live tables to equal the "
+    "generated ones and a sample of the atom cross to keep its meaning; the tables are compared again at the end",
+    "results are kept finite: a text whose factors (number and every (prefix*unit)^e, absolute decades summed) "
+    "exceed 1e250 is not judged (float overflow raises / underflow gives 0 in CPython); absolute tolerance 1e-300",
+    "an integer literal of 15 or more digits is not judged (2^53 limit above)",
     "the documentation tables docs/source/_static/tables/*.csv are the published statement of which prefixes a "
-    "unit admits; symbols missing there (4 at present) are judged against the regenerated table only",
+    "unit admits; symbols missing there, tables without a Prefixes column (constants) and rows the reader "
+    "cannot attribute with certainty are judged against the regenerated table only (noted, never an alarm)",
 ]
 EXPLANATION = ("theorems: atom parser soundness/completeness/unambiguity from kernel-decided table facts; TEXT-level "
                "expression theorem for every rendering (any blanks) of every unit AST: coefficient and exponents "
@@ -596,32 +602,58 @@ def dump_roundtrip(ctx, t):
 
 
 # ---------------------------------------------------------------- documentation table of admissible prefixes
-def docs_prefix_table():
-    """{symbol: 'all' | set(prefixes)} from the published tables docs/source/_static/tables/*.csv
-    (column 'Prefixes': 'all', empty, or the prefixed symbols 'kly, Mly, Gly'; rows may group
-    symbols: '"Bm, BmW"' with '"dBm, dBmW"', '"l, L"' with '"all, all"'); None if the docs are missing"""
+def docs_prefix_table(keys):
+    """({symbol: 'all' | frozenset(prefixes)}, notes) from the published tables
+    docs/source/_static/tables/*.csv, column 'Prefixes': 'all', empty, or the prefixed symbols
+    ('kly, Mly, Gly'); a row may group symbols ('"Bm, BmW"' with '"dBm, dBmW"', '"l, L"' with '"all, all"').
+    Anything that cannot be read with certainty (missing file or column, a token that is not
+    prefix-key ++ symbol-of-the-row, 'all' mixed with tokens, contradictory rows) makes the symbols
+    concerned UNDOCUMENTED - they are then not judged against the documentation (note, never an alarm)."""
     import csv
     d = core.REPO / "docs" / "source" / "_static" / "tables"
-    out = {}
-    files = ["unit_base.csv", "unit_standard.csv", "unit_logarithmic.csv", "unit_temperature.csv", "constants.csv"]
-    if not all((d / f).exists() for f in files):
-        return None
-    for f in files:
-        with open(d / f, newline="") as fh:
-            for row in csv.DictReader(fh):
-                syms = [x.strip() for x in row["Symbol"].split(",") if x.strip()]
+    out, bad, notes = {}, set(), []
+    for f in ["unit_base.csv", "unit_standard.csv", "unit_logarithmic.csv", "unit_temperature.csv", "constants.csv"]:
+        try:
+            with open(d / f, newline="") as fh:
+                rows = list(csv.DictReader(fh))
+        except Exception as e:
+            notes.append("documentation table %s unreadable (%s): its symbols are not judged against it" % (f, type(e).__name__))
+            continue
+        if not rows or "Symbol" not in rows[0] or "Prefixes" not in rows[0]:
+            if rows and "Symbol" in rows[0] and "Prefixes" not in rows[0]:
+                ctx_note = "documentation table %s states no prefixes column: its symbols are not judged against it" % f
+                notes.append(ctx_note)
+            continue
+        for row in rows:
+            try:
+                syms = [x.strip() for x in (row.get("Symbol") or "").split(",") if x.strip()]
                 pre = [x.strip() for x in (row.get("Prefixes") or "").split(",") if x.strip()]
-                for s in syms:
-                    if pre and all(x == "all" for x in pre):
-                        out[s] = "all"
-                    else:
-                        out.setdefault(s, set())
-                        if out[s] != "all":
-                            for x in pre:
-                                if x.endswith(s) and len(x) > len(s) and not any(
-                                        x.endswith(s2) and len(s2) > len(s) for s2 in syms):
-                                    out[s].add(x[:-len(s)])
-    return out
+                stated = {}
+                if pre and all(x == "all" for x in pre):
+                    stated = {s2: "all" for s2 in syms}
+                elif any(x == "all" for x in pre):
+                    raise ValueError("'all' mixed with prefixed symbols")
+                else:
+                    stated = {s2: set() for s2 in syms}
+                    for x in pre:
+                        cands = [s2 for s2 in syms if x.endswith(s2) and x[:-len(s2)] in keys]
+                        if not cands:
+                            raise ValueError("token %r is not prefix ++ symbol of the row" % x)
+                        s2 = max(cands, key=len)
+                        stated[s2].add(x[:-len(s2)])
+                    stated = {k: frozenset(v) for k, v in stated.items()}
+            except Exception as e:
+                notes.append("documentation row %r of %s not understood (%s): not judged" % (row.get("Symbol"), f, e))
+                bad.update(x.strip() for x in (row.get("Symbol") or "").split(",") if x.strip())
+                continue
+            for s2, v in stated.items():
+                if s2 in out and out[s2] != v:
+                    notes.append("documentation states two different prefix sets for %r: not judged" % s2)
+                    bad.add(s2)
+                out[s2] = v
+    for s2 in bad:
+        out.pop(s2, None)
+    return out, notes
 
 
 def docs_valid(doc, keys, text):
@@ -639,12 +671,14 @@ def docs_valid(doc, keys, text):
 def docs_stream(ctx, t, impl_accepts):
     """every prefix x every symbol: the real code accepts exactly what the published documentation
     table of units admits (the documentation is the published specification of admissibility)"""
-    doc = docs_prefix_table()
-    if doc is None:
-        ctx.notes.append("documentation tables docs/source/_static/tables/*.csv not found: prefix admissibility "
+    keys = [p["sym"] for p in t["prefixes"]]
+    doc, notes = docs_prefix_table(set(keys))
+    for n in notes[:6]:
+        ctx.notes.append(n)
+    if not doc:
+        ctx.notes.append("no readable documentation table docs/source/_static/tables/*.csv: prefix admissibility "
                          "is judged against the regenerated table only")
         return
-    keys = [p["sym"] for p in t["prefixes"]]
     syms = [u["sym"] for u in t["units"]]
     missing = [s for s in syms if s not in doc]
     ctx.count("docs.symbols_not_documented", len(missing))
@@ -754,6 +788,94 @@ def random_stream(ctx, t, count):
         judge(ctx, "random", text, ans)
 
 
+def _table_diff(t0, t1):
+    """symbols whose table rows differ between two extractions"""
+    out = []
+    for part, key in (("prefixes", "sym"), ("units", "sym"), ("sys", "sym")):
+        a = {r[key]: r for r in t0[part]}
+        b = {r[key]: r for r in t1[part]}
+        for k in list(a) + [k for k in b if k not in a]:
+            if a.get(k) != b.get(k):
+                out.append("%s %r %s" % (part, k, "added" if k not in a else ("removed" if k not in b else "changed")))
+        if [r[key] for r in t0[part]] != [r[key] for r in t1[part]] and not out:
+            out.append("%s reordered" % part)
+    if t0["symbols"] != t1["symbols"]:
+        out.append("SYMBOL_* constants changed")
+    return out
+
+
+def tables_still_as_generated(ctx, t0, where, replay):
+    """the live tables are still the ones the Lean table was generated from ("exactly the table entries")"""
+    try:
+        t1 = extract_tables()
+    except Exception as e:
+        ctx.violation("tables:changed-during-run", "the unit tables can no longer be read %s: %r" % (where, e), replay)
+        return False
+    d = _table_diff(t0, t1)
+    if d:
+        ctx.violation("tables:changed-during-run",
+                      "the published unit tables differ %s from the tables at the start of the run: %s" % (where, "; ".join(d[:6])),
+                      replay)
+        return False
+    return True
+
+
+def env_stream(ctx, t, atom_texts, count):
+    """temporary unit environments must not change what strings over the PUBLISHED tables mean: open and
+    close a few UnitEnvironments (valid ones, ones refused for a duplicate symbol, ones refused by the
+    uniqueness check because a custom symbol spells prefix ++ symbol), then (1) the live tables must be the
+    generated ones again, (2) the custom symbols are unknown again and a sample of the exhaustive atom cross
+    still has its table meaning.  Nothing is judged while an environment is open."""
+    from scinumtools.units import UnitEnvironment
+    rng = ctx.rng
+    pairs = [(u, p) for u, adm in admissible_pairs(t) for p in adm]
+    known = {u["sym"] for u in t["units"]} | {p + u for u, p in pairs}
+    letters = "qwzxjvy"
+    history, customs = [], []
+
+    def fresh():
+        for _ in range(50):
+            s = "".join(rng.choice(letters) for _ in range(rng.randint(3, 5)))
+            if s not in known and s not in customs and not any(s.endswith(k) for k in known):
+                return s
+        return None
+    for _ in range(count):
+        a = fresh()
+        if a is None:
+            continue
+        kind = rng.choice(["valid", "collide", "duplicate", "valid"])
+        units = {a: {"magnitude": rng.choice([2.0, 0.5, 3.0]), "dimensions": [1, 0, 0, 0, 0, 0, 0, 0]}}
+        extra = None
+        if kind == "collide":      # a custom symbol that spells an admitted prefix ++ symbol ('Gs', 'km' ...)
+            u, p = rng.choice(pairs)
+            extra = p + u
+            if extra in {x["sym"] for x in t["units"]}:
+                continue
+            units[extra] = {"magnitude": 0.1, "dimensions": [0, 1, 0, 0, 0, 0, 0, 0]}
+        elif kind == "duplicate":  # a symbol of the table itself
+            extra = rng.choice(t["units"])["sym"]
+            units[extra] = {"magnitude": 0.1, "dimensions": [0, 1, 0, 0, 0, 0, 0, 0]}
+        outcome = "ok"
+        try:
+            with UnitEnvironment(units):
+                pass
+        except Exception as e:
+            outcome = "refused"
+        history.append([kind, list(units), outcome])
+        customs.append(a)
+        if extra:
+            customs.append(extra)
+        ctx.count("env." + kind + "." + outcome)
+    replay = {"stream": "env", "environments": history}
+    ok = tables_still_as_generated(ctx, t, "after opening and closing unit environments", replay)
+    # strings over the published tables mean what they meant; custom symbols are unknown again
+    texts = list(dict.fromkeys(customs + [c + "2" for c in customs[:4]] + ["m/" + c for c in customs[:4]] +
+                               rng.sample(atom_texts, min(len(atom_texts), 150))))
+    for text, ans in zip(texts, ask_texts(ctx, texts)):
+        judge(ctx, "env", text, ans)
+    return ok
+
+
 def correspond(ctx: Ctx):
     thorough = ctx.tier == "thorough"
     t = extract_tables()
@@ -766,6 +888,8 @@ def correspond(ctx: Ctx):
         ctx.rng.sample(ast_texts, 400 if thorough else 60)
     mutation_stream(ctx, seeds, None if thorough else 6, FOREIGN)
     random_stream(ctx, t, 20000 if thorough else 3000)
+    env_stream(ctx, t, atom_texts, 24 if thorough else 8)
+    tables_still_as_generated(ctx, t, "at the end of the run", {"stream": "end-of-run"})
     ctx.extra["exhaustive_part"] = "atoms: (none + %d prefixes) x %d symbols x %s" % (
         len(t["prefixes"]), len(t["units"]),
         ("%d exponent texts" % (1 + len(EXPS_QUICK[1:] + EXPS_MORE))) if thorough else "(no exponent + 1 random exponent text)")
